@@ -276,9 +276,17 @@ def rule_b2(ctx, ix):
             elif isinstance(st, ast.For):
                 exprs = [st.iter]
             for e in exprs:
+                local = dict(state)
+                for n in ast.walk(e):
+                    if isinstance(n, (ast.ListComp, ast.GeneratorExp, ast.SetComp)):
+                        for g in n.generators:
+                            tg = frozenset(classify(g.iter, local))
+                            for nm in ast.walk(g.target):
+                                if isinstance(nm, ast.Name):
+                                    local[nm.id] = tg
                 for n in ast.walk(e):
                     if isinstance(n, ast.Call) and isinstance(n.func, ast.Attribute) and n.func.attr == 'to_mask':
-                        sites.append((n, classify(n.func.value, state)))
+                        sites.append((n, classify(n.func.value, local)))
         Flow(classify, on_stmt=on_stmt).run(f.node, {})
         seen = set()
         for call, tags in sites:
